@@ -109,6 +109,11 @@ func DeeperSetter(link Link, node Node, target Gindex, expand bool) (Link, error
 			if !expand {
 				return nil, NavigationError
 			}
+			// Only the summary of a zero subtree can be expanded:
+			// any other leaf stands for data that is not available here.
+			if r, ok := node.(*Root); !ok || *r != ZeroHashes[depth+1] {
+				return nil, NavigationError
+			}
 			child := ZeroNode(depth)
 			node = NewPairNode(child, child)
 		}
